@@ -138,7 +138,7 @@ class C11(Check):
         behaviours = stdreg.effective_behaviours(spec['behaviours'])
         hm.RT.reset(sentinel, behaviours, error_builder=sh.build_error)
         mws = stack.build_middlewares(spec['middlewares'], ev, is_async)
-        table = stack.build_handlers(spec['handlers'], ev, is_async)
+        table = stack.build_handlers(spec['handlers'], ev, is_async, observe_cause=True)
         container = spec.get('mw_container', 'list')
         kw: Dict[str, Any] = {'middlewares': mws if container == 'list' else tuple(mws) if container == 'tuple' else (m for m in mws), 'error_handlers': table}
         if spec.get('max_batch_size') is not None:
